@@ -2,7 +2,7 @@
    Only statements, [exact <lemma>] and Print Assumptions live here. *)
 From Coq Require Import List Bool NArith ZArith String.
 From Mac Require Import Model.Err Model.Caveat Model.Access Model.Prohibits
-  Proofs.ErrFacts Proofs.AuthProofs.
+  Proofs.ErrFacts Proofs.AuthProofs Proofs.AuthMono.
 Import ListNotations.
 Local Open Scope Z_scope.
 
@@ -66,7 +66,30 @@ Proof.
   - intros H a [<-|[]]. split; [reflexivity|exact H].
 Qed.
 
+(* attenuating the set can only tighten the terms: the effective lifetime limit never
+   grows and stays reported; a discharge request cleared after appending caveats was
+   cleared before, and one denied stays denied under every extension *)
+Theorem get_max_validity_attenuation_le : forall cs cs',
+  fst (get_max_validity (cs ++ cs')) <= fst (get_max_validity cs).
+Proof. exact get_max_validity_app_le_l. Qed.
+
+Theorem get_max_validity_attenuation_found : forall cs cs',
+  snd (get_max_validity cs) = true -> snd (get_max_validity (cs ++ cs')) = true.
+Proof. exact get_max_validity_app_found_l. Qed.
+
+Theorem discharge_set_attenuation_only_restricts : forall cs cs' d,
+  validate (cs ++ cs') [ADischarge d] = None -> validate cs [ADischarge d] = None.
+Proof. exact discharge_set_attenuate_l. Qed.
+
+Theorem discharge_set_denial_is_final : forall cs cs' d,
+  validate cs [ADischarge d] <> None -> validate (cs ++ cs') [ADischarge d] <> None.
+Proof. exact discharge_set_denied_stays_l. Qed.
+
 (* non-vacuity: the hypotheses are met by concrete values *)
+Example ex_attenuated_limit :
+  get_max_validity ([CMaxValidity 60] ++ [CIfPresent (Some [CMaxValidity 30]) 0]) = (30000000000, true) /\
+  get_max_validity [CMaxValidity 60] = (60000000000, true).
+Proof. vm_compute. split; reflexivity. Qed.
 Example ex_user_ok :
   prohibits (CConfineUser 2) (ADischarge (mkDR [(1%N, [7%N]); (2%N, [])] [] [] (unixT 0 0) 60)) = None.
 Proof. reflexivity. Qed.
@@ -91,3 +114,7 @@ Print Assumptions max_validity_safe.
 Print Assumptions max_validity_exact.
 Print Assumptions get_max_validity_min.
 Print Assumptions discharge_set_clears_iff.
+Print Assumptions get_max_validity_attenuation_le.
+Print Assumptions get_max_validity_attenuation_found.
+Print Assumptions discharge_set_attenuation_only_restricts.
+Print Assumptions discharge_set_denial_is_final.
